@@ -6,6 +6,9 @@ front), `read_block` (Done above `blockoffset_last`, LRU cache, `blocks_read` /
 (one loop shape, three ways to decode a block), `read_block_FileXz`,
 `read_block_FileTar`, `drop_block`, the look-back drop; and the copy loop of
 `decompress_to_ntf` (src/readers/filedecompressor.rs).
+The lz4 block decode follows the generated `LZ4_FILL_LOOP`: the fill loop (`fillBreak`) as coded,
+the single `read` (`readOnce`) for the source before the repair; the latter also stays available
+as `Kind.lz4Single`, the counter-model of the repaired defect.
 
 A decoder is the decompressed byte string still to be delivered plus an
 arbitrary script of chunk sizes: `read(buf[..k])` returns `c` bytes with
@@ -61,14 +64,32 @@ def fill (cap : Option Nat) : Nat → Dec → Nat → Bytes → Option (Bytes ×
       if r.1.length = 0 then none
       else fill cap fuel r.2 (need - r.1.length) (acc ++ r.1)
 
-/-- `read_block_FileLz4` as coded: `block.resize(need, 0); reader.read(&mut block)` ONCE; the
-returned size is counted, the block keeps length `need` (zero padded after a short read) -/
+/-- `read_block_FileLz4` BEFORE the repair (`LZ4_FILL_LOOP = false`): `block.resize(need, 0);
+reader.read(&mut block)` ONCE; the returned size is counted, the block keeps length `need` (zero
+padded after a short read) -/
 def readOnce (s : Dec) (need : Nat) : Bytes × Dec :=
   let r := s.read need
   (r.1 ++ List.replicate (need - r.1.length) 0, r.2)
 
+/-- `read_block_FileLz4` as coded (`LZ4_FILL_LOOP = true`): `block.resize(blocksz_u, 0);
+while size_total < blocksz_u { match reader.read(&mut block[size_total..]) { Ok(0) => break,
+Ok(n) => size_total += n, Err(e) => … } }`. Unlike the bz2 loop a zero-length read is not an
+error: the loop ends and the block keeps its length, zero padded (`acc ++ 0…0`); `need` is what is
+still unfilled. Fuel `need` suffices (every round delivers ≥ 1 byte). -/
+def fillBreak : Nat → Dec → Nat → Bytes → Bytes × Dec
+  | 0, s, need, acc => (acc ++ List.replicate need 0, s)
+  | fuel + 1, s, need, acc =>
+    if need = 0 then (acc, s)
+    else
+      let r := s.read need
+      if r.1.length = 0 then (acc ++ List.replicate need 0, r.2)
+      else fillBreak fuel r.2 (need - r.1.length) (acc ++ r.1)
+
+/-- `lz4Single` is not a container of its own: it is the lz4 reader as it was before the repair
+(one `read` per block), kept so that the repaired defect stays stated as a counter-model
+(`S4V.Props.StreamSpec.assemble_eq_lz4_single_read_false`). The driver never produces it. -/
 inductive Kind where
-  | plain | gz | bz2 | lz4 | xz | tar
+  | plain | gz | bz2 | lz4 | xz | tar | lz4Single
   deriving DecidableEq, Repr, Inhabited
 
 /-- decode one block of expected length `need` -/
@@ -76,7 +97,8 @@ def decodeBlock (kind : Kind) (s : Dec) (need : Nat) : Option (Bytes × Dec) :=
   match kind with
   | .gz => fill (some GZ_BUF_SZ) need s need []
   | .bz2 => if BZ2_FILL_LOOP then fill none need s need [] else some (readOnce s need)
-  | _ => if LZ4_FILL_LOOP then fill none need s need [] else some (readOnce s need)
+  | .lz4Single => some (readOnce s need)
+  | _ => if LZ4_FILL_LOOP then some (fillBreak need s need []) else some (readOnce s need)
 
 /-- the size pre-pass of `new` (bz2, lz4): `loop { n = read(buf); if n == 0 {break}; total += n }` -/
 def countLoop (bufsz : Nat) : Nat → Dec → Nat → Nat
@@ -174,7 +196,7 @@ def Rd.new (kind : Kind) (bs : Nat) (d : Bytes) (cs csPre : List Nat) : Rd :=
   | .plain | .tar | .gz =>
     -- metadata length / tar header size / gz trailer ISIZE (< 4 GiB)
     { kind, bs, fsz := d.length, src := d, dec := ⟨d, cs⟩, blocks := [], blocksRead := [], lru := [], high := 0 }
-  | .bz2 | .lz4 =>
+  | .bz2 | .lz4 | .lz4Single =>
     { kind, bs, fsz := countLoop PREPASS_BUF_SZ (d.length + 1) ⟨d, csPre⟩ 0, src := d, dec := ⟨d, cs⟩,
       blocks := [], blocksRead := [], lru := [], high := 0 }
   | .xz =>
@@ -273,7 +295,7 @@ def readTar (r : Rd) (k : Nat) : Res × Rd :=
 def dispatch (r : Rd) (k : Nat) : Res × Rd :=
   match r.kind with
   | .plain => readFile r k
-  | .gz | .bz2 | .lz4 => readStream r k
+  | .gz | .bz2 | .lz4 | .lz4Single => readStream r k
   | .xz => readXz r k
   | .tar => readTar r k
 
